@@ -126,6 +126,9 @@ type vc struct {
 	pendingBinds      []Val               // captured variables of the closure whose contract is being applied
 	counted           map[string]bool     // call sites with a ghost counter (calls("callee#k") in the contract)
 	rtypeAxiom        bool                // the canonicity axiom of reflect.Type descriptors has been emitted
+	implPreds         []implPred          // "implements interface I" predicates over type tags (facts stated lazily)
+	curTail           bool                // the call being executed is in tail position (`return f(args)`) in the top frame
+	tailInline        bool                // executing the body of an inlined tail call
 	escInfo           *escInfo            // non-escaping allocation sites of the function under verification (localobj.go)
 	hasLocal          bool
 	counters          map[string]int
@@ -454,6 +457,7 @@ func (x *vc) oblige(st *state, class, detail, goal, pos, desc string, auto bool)
 	if x.safetyOnly && !auto {
 		return nil
 	}
+	x.implFacts()
 	o := &obligation{name: x.oblName(class, detail), class: class, fn: fnKey(x.top), goal: goal, guard: st.guard,
 		nDecl: len(x.decls), nAssert: len(x.asserts), pos: pos, desc: desc, auto: auto}
 	// a clause label of the form "C04:name" or "C04" makes the obligation belong to that property only
@@ -936,6 +940,7 @@ func (x *vc) loopHeader(fr *frame, st *state, li *loopInfo) {
 			mod.add(counterName(site), "*")
 		}
 	}
+	x.curTail = false
 	x.havoc(st, mod, fmt.Sprintf("loop%d", li.ordinal))
 	if st.nextRef != "" {
 		nr := x.freshName("nextRef")
